@@ -326,8 +326,12 @@ func (w *c15World) violate(key, format string, args ...any) {
 
 // checkMarkers enforces I2 on a string that the SDK is about to use (a URL it
 // contacts, the authorization URL, a token request).
+// c15Random matches the random components (PKCE challenge/verifier, state) of URLs and forms: their
+// base64url/base32 alphabets could spell a marker by chance.
+var c15Random = regexp.MustCompile(`(code_challenge|code_verifier|state)=[^&\s]*`)
+
 func (w *c15World) checkMarkers(where, s string) {
-	for _, m := range c15Marker.FindAllString(s, -1) {
+	for _, m := range c15Marker.FindAllString(c15Random.ReplaceAllString(s, "$1=-"), -1) {
 		d := w.docs[m]
 		switch {
 		case d == nil || !d.served:
@@ -742,6 +746,13 @@ func (w *c15World) fetch(ctx context.Context, args *auth.AuthorizationArgs, n in
 		// fabricated endpoints below a validated base (2025-03-26 fallback)
 		issuer = strings.TrimSuffix(au.Scheme+"://"+au.Host+au.Path, "/authorize")
 		a.issuer = issuer
+		// The fallback is for servers without metadata. A metadata document that was found and had
+		// to be rejected is a failed check: nothing may proceed with that authorization server.
+		for m, d := range w.docs {
+			if d.kind == "asm" && d.served && !d.acceptable && d.asked == issuer {
+				w.violate("fallback-after-rejected-metadata/"+strings.SplitN(d.variant, ":", 2)[0], "the authorization server metadata %s for issuer %s had to be rejected (%s), yet the flow goes on with default endpoints: %s", m, issuer, d.variant, args.URL)
+			}
+		}
 	}
 	w.checkPrereg("authorization URL", args.URL, a.issuer)
 	w.mu.Unlock()
